@@ -7,6 +7,14 @@ def run(c):
     c.guard("model_dags_with_blocks", ex["total"]["dags_with_blocks"])
     cor = lc.run_exhaustive(c, c.pick(["corpus:variants"], ["corpus:variants", "corpus:ties", "corpus:frames", "corpus:forkless", "corpus:structural"]), "reference", orders=4)
     c.guard("corpus_spec_ties", cor["total"].get("spec_ties", 0))
+    # code-shaped model of abft/election (incremental votes, reset + re-vote after each decision) against the definition
+    for cfg in c.pick(["e31f_6"], ["e11_8", "e31f_6", "e211_7"]):
+        r = c.tlc_must_pass("lachesis", "MC_Election", cfg="MC_Election_" + cfg, workers=8, timeout=3400)
+        c.log("Election.tla %s: %d distinct states, ElectionMatchesDefinition holds" % (cfg, r.distinct))
+    if not c.quick:
+        r = c.tlc("lachesis", "MC_Election", cfg="MC_Election_s1111", workers=8, timeout=900, simulate="num=400", depth=27)
+        if not r.clean:
+            raise lc.vlib.Infra("Election.tla simulation failed: " + lc.vlib.tail(r.out, 20))
     res = lc.run_profile(c, "c10", c.pick(14, 150), "reference")
     st = res["stats"]
     c.guard("blocks", st.get("blocks", 0))
